@@ -68,7 +68,9 @@ def git_url_to_bzr_url(location, branch=None, ref=None):
         try:
             (username, host, path) = parse_rsync_url(location)
         except ValueError:
-            return location
+            # Not a URL (e.g. a local path): keep it as it is, but still
+            # record the branch or ref below.
+            pass
         else:
             quoted_path = urlutils.quote(path, safe="/~")
             if not quoted_path.startswith("/"):
@@ -81,7 +83,7 @@ def git_url_to_bzr_url(location, branch=None, ref=None):
                 port=None,
                 quoted_path=quoted_path,
             )
-        location = str(url)
+            location = str(url)
     elif url.scheme in SCHEME_REPLACEMENT:
         url.scheme = SCHEME_REPLACEMENT[url.scheme]
         location = str(url)
